@@ -1,0 +1,214 @@
+//go:build verif
+
+package collection
+
+import (
+	"encoding/json"
+	"errors"
+	"runtime"
+	"sort"
+	"sync"
+	"testing"
+	"time"
+
+	"github.com/gotid/god/internal/verifdrv"
+	"github.com/gotid/god/lib/timex"
+)
+
+// The driver is a thin interpreter: it feeds a call history to a real TimingWheel (kind "wheel")
+// or Cache (kind "cache") running on a fake ticker and reports what happened after every call.
+
+type verifPair struct {
+	K string `json:"k"`
+	V int    `json:"v"`
+}
+
+type verifRec struct {
+	mu    sync.Mutex
+	pairs []verifPair
+}
+
+func (r *verifRec) add(k, v any) {
+	ks, _ := k.(string)
+	vi, _ := v.(int)
+	r.mu.Lock()
+	r.pairs = append(r.pairs, verifPair{ks, vi})
+	r.mu.Unlock()
+}
+
+func (r *verifRec) take() []verifPair {
+	r.mu.Lock()
+	out := r.pairs
+	r.pairs = nil
+	r.mu.Unlock()
+	if out == nil {
+		out = []verifPair{}
+	}
+	return out
+}
+
+func verifErrCode(err error) int {
+	switch {
+	case err == nil:
+		return 0
+	case errors.Is(err, ErrClosed):
+		return 1
+	case errors.Is(err, ErrArgument):
+		return 2
+	default:
+		return 9
+	}
+}
+
+// verifSettle waits until the callback goroutines spawned so far have finished (the number of
+// goroutines is back to target). Bounded; reports false on timeout.
+func verifSettle(target int) bool {
+	deadline := time.Now().Add(3 * time.Second)
+	for i := 0; runtime.NumGoroutine() > target; i++ {
+		if i < 200 {
+			runtime.Gosched()
+			continue
+		}
+		if time.Now().After(deadline) {
+			return false
+		}
+		time.Sleep(50 * time.Microsecond)
+	}
+	return true
+}
+
+// verifTickConsumed waits until the run loop has taken the tick out of the fake ticker's buffer.
+func verifTickConsumed(tk timex.FakeTicker) bool {
+	deadline := time.Now().Add(3 * time.Second)
+	for i := 0; len(tk.Chan()) > 0; i++ {
+		if i < 200 {
+			runtime.Gosched()
+			continue
+		}
+		if time.Now().After(deadline) {
+			return false
+		}
+		time.Sleep(20 * time.Microsecond)
+	}
+	return true
+}
+
+const verifBarrierKey = "\x00verif-barrier"
+
+type verifWheelCall struct {
+	Op    string  `json:"op"` // set | move | remove | tick | drain | stop
+	Key   *string `json:"key"`
+	Val   int     `json:"val"`
+	Delay int64   `json:"delay"` // nanoseconds
+}
+
+type verifWheelCase struct {
+	Interval int64            `json:"interval"` // nanoseconds
+	Slots    int              `json:"slots"`
+	Calls    []verifWheelCall `json:"calls"`
+}
+
+type verifWheelObs struct {
+	Err     int         `json:"err"` // 0 nil, 1 ErrClosed, 2 ErrArgument, 3 panic
+	Fired   []verifPair `json:"fired"`
+	Drained []verifPair `json:"drained"`
+}
+
+func verifKey(k *string) any {
+	if k == nil {
+		return nil
+	}
+	return *k
+}
+
+func verifWheel(raw json.RawMessage) any {
+	var c verifWheelCase
+	if err := json.Unmarshal(raw, &c); err != nil {
+		return map[string]any{"error": err.Error()}
+	}
+	fired, drained := &verifRec{}, &verifRec{}
+	if c.Interval <= 0 || c.Slots <= 0 {
+		w, err := NewTimingWheel(time.Duration(c.Interval), c.Slots, fired.add)
+		if err == nil {
+			w.Stop()
+		}
+		return map[string]any{"new_ok": err == nil, "obs": []verifWheelObs{}, "timeouts": 0}
+	}
+
+	base0 := runtime.NumGoroutine()
+	ticker := timex.NewFakeTicker()
+	w, err := newTimingWheelWithClock(time.Duration(c.Interval), c.Slots, fired.add, ticker)
+	if err != nil {
+		return map[string]any{"new_ok": false, "obs": []verifWheelObs{}, "timeouts": 0}
+	}
+	base := base0 + 1
+	stopped := false
+	timeouts := 0
+	// a further synchronous send: once it is accepted the loop has finished the previous handler
+	barrier := func() { _ = w.MoveTimer(verifBarrierKey, time.Duration(c.Interval)) }
+	obs := make([]verifWheelObs, 0, len(c.Calls))
+	for _, call := range c.Calls {
+		o := verifWheelObs{}
+		switch call.Op {
+		case "set":
+			o.Err = verifErrCode(w.SetTimer(verifKey(call.Key), call.Val, time.Duration(call.Delay)))
+		case "move":
+			o.Err = verifErrCode(w.MoveTimer(verifKey(call.Key), time.Duration(call.Delay)))
+		case "remove":
+			o.Err = verifErrCode(w.RemoveTimer(verifKey(call.Key)))
+		case "drain":
+			o.Err = verifErrCode(w.Drain(drained.add))
+		case "tick":
+			if !stopped { // a stopped ticker delivers nothing
+				ticker.Tick()
+				if !verifTickConsumed(ticker) {
+					timeouts++
+				}
+			}
+		case "stop":
+			if panicked, _ := verifdrv.Catch(w.Stop); panicked {
+				o.Err = 3
+			} else {
+				<-ticker.Chan() // closed by the run loop on exit
+				stopped = true
+				base = base0
+			}
+		}
+		if o.Err == 0 {
+			barrier()
+		}
+		if !verifSettle(base) {
+			timeouts++
+		}
+		o.Fired = fired.take()
+		o.Drained = drained.take()
+		sort.Slice(o.Drained, func(i, j int) bool {
+			if o.Drained[i].K != o.Drained[j].K {
+				return o.Drained[i].K < o.Drained[j].K
+			}
+			return o.Drained[i].V < o.Drained[j].V
+		})
+		obs = append(obs, o)
+	}
+	if !stopped {
+		w.Stop()
+		<-ticker.Chan()
+		verifSettle(base0)
+	}
+	return map[string]any{"new_ok": true, "obs": obs, "timeouts": timeouts}
+}
+
+func TestVerifDriver(t *testing.T) {
+	verifdrv.Run(t, func(raw json.RawMessage) any {
+		var head struct {
+			Kind string `json:"kind"`
+		}
+		_ = json.Unmarshal(raw, &head)
+		switch head.Kind {
+		case "cache":
+			return verifCache(raw)
+		default:
+			return verifWheel(raw)
+		}
+	})
+}
